@@ -13,8 +13,10 @@
                           and a non-zero entry in row i, together with a column with low i);
      vine_swap_no_interaction   the three together: in every other configuration the swap is a relabelling of the pairing, and (by
                           lows_unique) any rebuild from scratch finds exactly that pairing.
-   NOT proved (stated in Properties_C06.v as C06_vine_swap_full): the interacting configurations, where the implementation adds
-   one of the two columns to the other after the exchange; every state reached by the implementation is certified by the verified
+     vine_swap_interacting      the interacting configuration (with V[i][i+1] = 0): one addition of the left of the two columns to the
+                          right one restores reducedness, the right one gets low i;
+   NOT proved (stated in Properties_C06.v as C06_vine_swap_full): the configurations in which the preparing addition was needed and
+   has given columns i and i+1 the same low (one more addition between them after the exchange); every state reached by the implementation is certified by the verified
    checker instead (ReduceExec.check_any). *)
 From Coq Require Import ZArith Lia Znumtheory Arith List.
 Require Import Reduce ReduceAlg.
@@ -262,6 +264,126 @@ Proof.
   intros Ht Hred Hc Hno Ht' Hred'.
   destruct (vine_swap_no_interaction D R Ht Hred Hc Hno) as [H1 [H2 _]].
   apply (lows_unique p Hp n (pmat D)); assumption.
+Qed.
+
+(* ------------------------------------------------------------------ the interacting configuration: one addition afterwards *)
+Let nzm_mul := nzm_mul p Hp.
+Let zm_add_l := zm_add_l p Hp.
+Let zm_add_r := zm_add_r p Hp.
+Let zm_sub := zm_sub p Hp.
+
+(* two columns x < y with the same low i+1, every other column with a low of its own outside {i, i+1}: adding a multiple of x to y
+   that cancels row i+1 and leaves row i non-zero gives a reduced matrix in which y has low i *)
+Lemma fix_pair (R1 : mat) x y c1 :
+  (x < y)%nat -> (y < n)%nat ->
+  is_low (R1 x) (S i) -> is_low (R1 y) (S i) ->
+  (forall j m, (j < n)%nat -> j <> x -> j <> y -> is_low (R1 j) m -> m <> i /\ m <> S i) ->
+  (forall j1 j2 m, (j1 < n)%nat -> (j2 < n)%nat -> j1 <> j2 -> is_low (R1 j1) m -> is_low (R1 j2) m ->
+     (j1 = x /\ j2 = y) \/ (j1 = y /\ j2 = x)) ->
+  zm (R1 y (S i) + c1 * R1 x (S i)) -> ~ zm (R1 y i + c1 * R1 x i) ->
+  is_low (col_add R1 y x c1 y) i /\ reduced (col_add R1 y x c1).
+Proof.
+  intros Hxy Hy [_ [Hnx Hzx]] [_ [_ Hzy]] Hoth Hexc Hc Hnz.
+  assert (Hnew : is_low (col_add R1 y x c1 y) i).
+  { split; [lia|]. split; [rewrite col_add_same; exact Hnz|].
+    intros r Hr. rewrite col_add_same. destruct (Nat.eq_dec r (S i)) as [->|Hne]; [exact Hc|].
+    apply zm_add; [apply Hzy; lia|apply zm_mul_r; apply Hzx; lia]. }
+  split; [exact Hnew|].
+  intros j1 j2 m Hj1 Hj2 Hne Hl1 Hl2.
+  destruct (Nat.eq_dec j1 y) as [E1|N1]; destruct (Nat.eq_dec j2 y) as [E2|N2].
+  - lia.
+  - subst j1. assert (m = i) by (apply (low_unique (col_add R1 y x c1 y)); assumption). subst m.
+    rewrite (col_add_other R1 y x c1 j2 N2) in Hl2.
+    destruct (Nat.eq_dec j2 x) as [->|Nx].
+    + assert (i = S i) by (apply (low_unique (R1 x)); [exact Hl2|split; [exact Hi|split; [exact Hnx|exact Hzx]]]). lia.
+    + destruct (Hoth j2 i Hj2 Nx N2 Hl2) as [F _]. apply F; reflexivity.
+  - subst j2. assert (m = i) by (apply (low_unique (col_add R1 y x c1 y)); assumption). subst m.
+    rewrite (col_add_other R1 y x c1 j1 N1) in Hl1.
+    destruct (Nat.eq_dec j1 x) as [->|Nx].
+    + assert (i = S i) by (apply (low_unique (R1 x)); [exact Hl1|split; [exact Hi|split; [exact Hnx|exact Hzx]]]). lia.
+    + destruct (Hoth j1 i Hj1 Nx N1 Hl1) as [F _]. apply F; reflexivity.
+  - rewrite (col_add_other R1 y x c1 j1 N1) in Hl1. rewrite (col_add_other R1 y x c1 j2 N2) in Hl2.
+    destruct (Hexc j1 j2 m Hj1 Hj2 Hne Hl1 Hl2) as [[_ F]|[F _]]; tauto.
+Qed.
+
+Theorem vine_swap_interacting (D R : mat) a b :
+  tri D R -> reduced R ->
+  (exists c, zm (c i) /\ ~ zm (c (S i)) /\ veq (R (S i)) (comb D c (S (S i)))) ->
+  (a < n)%nat -> (b < n)%nat -> is_low (R a) (S i) -> ~ zm (R a i) -> is_low (R b) i ->
+  exists x y c1, (x < y)%nat /\ (y < n)%nat /\
+    ((x = tr b /\ y = tr a) \/ (x = tr a /\ y = tr b)) /\
+    tri (pmat D) (col_add (pmat R) y x c1) /\ reduced (col_add (pmat R) y x c1) /\
+    is_low (col_add (pmat R) y x c1 y) i /\ is_low (col_add (pmat R) y x c1 x) (S i).
+Proof.
+  intros Ht Hred Hc Ha Hb Hla Hnza Hlb.
+  pose proof (vine_swap_tri D R Ht Hc) as Ht'.
+  assert (Hab : a <> b).
+  { intros ->. assert (S i = i) by (apply (low_unique (R b)); assumption). lia. }
+  assert (Htab : tr a <> tr b) by (intros H; apply Hab; apply tr_inj; exact H).
+  pose proof (tr_lt a Ha) as Hta. pose proof (tr_lt b Hb) as Htb.
+  (* the two conjugated columns *)
+  assert (LA : is_low (pmat R (tr a)) (S i)) by (unfold pmat; rewrite tr_invol; apply low_Si_nz; assumption).
+  assert (LB : is_low (pmat R (tr b)) (S i)) by (unfold pmat; rewrite tr_invol; apply low_i; assumption).
+  assert (Hoth : forall j m, (j < n)%nat -> j <> tr a -> j <> tr b -> is_low (pmat R j) m -> m <> i /\ m <> S i).
+  { intros j m Hj Hja Hjb Hl. unfold pmat in Hl. destruct (low_before_swap _ _ Hl) as [m0 [Hm0 Hmv]].
+    assert (N1 : m0 <> i).
+    { intros ->. apply Hjb. destruct (Nat.eq_dec (tr j) b) as [E|E]; [rewrite <- E, tr_invol; reflexivity|].
+      exfalso. exact (Hred (tr j) b i (tr_lt j Hj) Hb E Hm0 Hlb). }
+    assert (N2 : m0 <> S i).
+    { intros ->. apply Hja. destruct (Nat.eq_dec (tr j) a) as [E|E]; [rewrite <- E, tr_invol; reflexivity|].
+      exfalso. exact (Hred (tr j) a (S i) (tr_lt j Hj) Ha E Hm0 Hla). }
+    destruct Hmv as [[? [? ?]]|[[? ?]|[[? [? ?]]|[? [? ?]]]]]; subst; tauto. }
+  assert (Hexc : forall u w, ((u = tr a /\ w = tr b) \/ (u = tr b /\ w = tr a)) ->
+     forall j1 j2 m, (j1 < n)%nat -> (j2 < n)%nat -> j1 <> j2 -> is_low (pmat R j1) m -> is_low (pmat R j2) m ->
+     (j1 = u /\ j2 = w) \/ (j1 = w /\ j2 = u)).
+  { intros u w Huw j1 j2 m Hj1 Hj2 Hne Hl1 Hl2.
+    assert (In1 : j1 = tr a \/ j1 = tr b).
+    { destruct (Nat.eq_dec j1 (tr a)); [tauto|]. destruct (Nat.eq_dec j1 (tr b)); [tauto|]. exfalso.
+      destruct (Hoth j1 m Hj1 n0 n1 Hl1) as [M1 M2].
+      destruct (Nat.eq_dec j2 (tr a)) as [->|]; [apply M2; apply (low_unique (pmat R (tr a))); assumption|].
+      destruct (Nat.eq_dec j2 (tr b)) as [->|]; [apply M2; apply (low_unique (pmat R (tr b))); assumption|].
+      (* both are ordinary columns: their lows are those of R, which is reduced *)
+      unfold pmat in Hl1, Hl2.
+      destruct (low_before_swap _ _ Hl1) as [m1 [A1 V1]]. destruct (low_before_swap _ _ Hl2) as [m2 [A2 V2]].
+      assert (m1 <> m2) by (intros ->; apply (Hred (tr j1) (tr j2) m2 (tr_lt j1 Hj1) (tr_lt j2 Hj2)); [intros E; apply Hne; apply tr_inj; exact E|assumption|assumption]).
+      destruct (Hoth j2 m Hj2 n2 n3 ltac:(unfold pmat; exact Hl2)) as [M3 M4].
+      destruct V1 as [[? [? ?]]|[[? ?]|[[? [? ?]]|[? [? ?]]]]]; destruct V2 as [[? [? ?]]|[[? ?]|[[? [? ?]]|[? [? ?]]]]]; subst; try lia; tauto. }
+    assert (In2 : j2 = tr a \/ j2 = tr b).
+    { destruct (Nat.eq_dec j2 (tr a)); [tauto|]. destruct (Nat.eq_dec j2 (tr b)); [tauto|]. exfalso.
+      destruct (Hoth j2 m Hj2 n0 n1 Hl2) as [M1 M2].
+      destruct In1 as [->| ->]; apply M2; [apply (low_unique (pmat R (tr a)))|apply (low_unique (pmat R (tr b)))]; assumption. }
+    destruct Huw as [[-> ->]|[-> ->]]; destruct In1 as [->| ->]; destruct In2 as [->| ->]; tauto. }
+  (* entries of the two columns in rows i and i+1 *)
+  assert (EA1 : pmat R (tr a) (S i) = R a i) by (unfold pmat, pvec; rewrite tr_invol, tr_Si; reflexivity).
+  assert (EA0 : pmat R (tr a) i = R a (S i)) by (unfold pmat, pvec; rewrite tr_invol, tr_i; reflexivity).
+  assert (EB1 : pmat R (tr b) (S i) = R b i) by (unfold pmat, pvec; rewrite tr_invol, tr_Si; reflexivity).
+  assert (EB0 : pmat R (tr b) i = R b (S i)) by (unfold pmat, pvec; rewrite tr_invol, tr_i; reflexivity).
+  destruct Hla as [_ [Hnza1 _]]. destruct Hlb as [_ [Hnzb0 Hzb]].
+  assert (Hzb1 : zm (R b (S i))) by (apply Hzb; lia).
+  destruct (lt_eq_lt_dec (tr a) (tr b)) as [[Hlt|Heq]|Hgt]; [|tauto|].
+  - (* x = tr a, y = tr b *)
+    destruct (cancelling_coefficient p Hp (R b i) (R a i) Hnza) as [c1 Hc1].
+    assert (Hc1nz : ~ zm c1).
+    { intros Hz. apply Hnzb0. replace (R b i) with ((R b i + c1 * R a i) - c1 * R a i) by ring.
+      apply zm_sub; [exact Hc1|apply zm_mul_l; exact Hz]. }
+    destruct (fix_pair (pmat R) (tr a) (tr b) c1 Hlt Htb LA LB
+                (fun j m Hj N1 N2 Hl => Hoth j m Hj N1 N2 Hl) (Hexc (tr a) (tr b) (or_introl (conj eq_refl eq_refl))))
+      as [Hnew Hredn].
+    + rewrite EB1, EA1. exact Hc1.
+    + rewrite EB0, EA0. apply zm_add_r; [exact Hzb1|apply nzm_mul; assumption].
+    + exists (tr a), (tr b), c1. split; [exact Hlt|]. split; [exact Htb|]. split; [right; split; reflexivity|].
+      split; [apply (tri_col_add p Hp n); assumption|]. split; [exact Hredn|]. split; [exact Hnew|].
+      rewrite col_add_other by lia. exact LA.
+  - (* x = tr b, y = tr a *)
+    destruct (cancelling_coefficient p Hp (R a i) (R b i) Hnzb0) as [c1 Hc1].
+    destruct (fix_pair (pmat R) (tr b) (tr a) c1 Hgt Hta LB LA
+                (fun j m Hj N1 N2 Hl => Hoth j m Hj N2 N1 Hl) (Hexc (tr b) (tr a) (or_intror (conj eq_refl eq_refl))))
+      as [Hnew Hredn].
+    + rewrite EA1, EB1. exact Hc1.
+    + rewrite EA0, EB0. apply zm_add_l; [exact Hnza1|apply zm_mul_r; exact Hzb1].
+    + exists (tr b), (tr a), c1. split; [exact Hgt|]. split; [exact Hta|]. split; [left; split; reflexivity|].
+      split; [apply (tri_col_add p Hp n); assumption|]. split; [exact Hredn|]. split; [exact Hnew|].
+      rewrite col_add_other by lia. exact LB.
 Qed.
 
 End Swap.
